@@ -1,7 +1,16 @@
-(* Correspondence obligation for C14: the machine of Model/Ctx.v, run on the programs and on the very schedule
-   the harness' deterministic scheduler took on the real implementation, must produce the observed
-   per-goroutine traces, must have finished every goroutine, and must end with as many goroutine-local
-   tables as the implementation had left (threadlocal.LiveTables after - before the case). *)
+(* Correspondence obligations for C14.
+
+   ctx_machine (model tie): the machine of Model/Ctx.v, run on the programs and on the very schedule the harness'
+   deterministic scheduler took on the real implementation, must produce the observed per-goroutine traces, must
+   have finished every goroutine, and must end with as many goroutine-local tables as the implementation had left
+   (threadlocal.LiveTables after - before the case).
+
+   ctx_spec (specification on the observed data alone, no model involved): the observed traces must satisfy what
+   the theorems of Properties/C14.v state about traces —
+     * every observation reports as px.CurrentContext() the label of its lexical context, or none where no context
+       is established (C14_observations_see_established; `ev_okb` is the boolean form of CtxProofs.ev_ok);
+     * goroutine-local storage is never found missing, no unclassified panic (C14_storage_never_missing);
+     * no table is left when all goroutines of the case have ended (C14_tls_released). *)
 From Coq Require Import ZArith NArith Bool List.
 From PcoreV Require Import Model.Base Model.Ctx.
 Import ListNotations.
@@ -16,3 +25,16 @@ Definition ctx_check (c : ctx_case) : bool :=
   && Nat.eqb (live_tables (tls (sh final))) leftover.
 
 Definition ctx_mismatches (cs : list ctx_case) : list N := failing ctx_check cs.
+
+Definition ev_okb (e : event) : bool :=
+  match e with
+  | EObs _ cur lex => option_eqb N.eqb cur (option_map lo_ctx lex)
+  | EPanic PNoTable | EPanic POther => false
+  | _ => true
+  end.
+
+Definition ctx_spec_check (c : ctx_case) : bool :=
+  let '(_, _, observed, leftover) := c in
+  forallb (forallb ev_okb) observed && Nat.eqb leftover 0.
+
+Definition ctx_spec_violations (cs : list ctx_case) : list N := failing ctx_spec_check cs.
